@@ -1,5 +1,10 @@
 // C15(a) probe: NanoValue <-> co-process wire format round trip (rapidcheck, ASan/UBSan).
 //   cop_probe rt      deserialize(serialize(v)) == v deeply and bitwise, consumed == written; too-small buffers -> 0
+// C16 probe: the decoder on hostile bytes.
+//   cop_probe hostile serialized values with length / count / tag fields overwritten by boundary values, truncated,
+//                     spliced, deeply nested, or plain random bytes: cop_deserialize_value returns 0 or a count
+//                     <= buffer size, touching nothing outside the exact-size heap buffer (ASan) and without
+//                     exhausting the stack
 #include <rapidcheck.h>
 #include <cinttypes>
 #include <cstdlib>
@@ -27,7 +32,7 @@ struct Spec {  // generator-side description (independent of the VM heap)
 static rc::Gen<Spec> genSpec(int depth) {
     return rc::gen::exec([depth]() {
         Spec s;
-        int k = *rc::gen::inRange(0, depth > 0 ? 11 : 7);
+        int k = *rc::gen::resize(100, rc::gen::inRange(0, depth > 0 ? 11 : 7));
         if (k == 0) { s.tag = TAG_INT; s.bits = *rc::gen::oneOf(rc::gen::arbitrary<uint64_t>(), rc::gen::elementOf(std::vector<uint64_t>{0, 1, UINT64_MAX, 0x8000000000000000ULL, 0x7fffffffffffffffULL, 255, 256})); }
         else if (k == 1) { s.tag = TAG_FLOAT; s.bits = *rc::gen::oneOf(rc::gen::arbitrary<uint64_t>(), rc::gen::elementOf(std::vector<uint64_t>{0x7ff8000000000001ULL, 0x7ff0000000000000ULL, 0xfff0000000000000ULL, 0x8000000000000000ULL, 0x7ff0000000000001ULL, 1, 0})); }
         else if (k == 2) { s.tag = TAG_BOOL; s.bits = *rc::gen::inRange(0, 2); }
@@ -116,7 +121,87 @@ static std::string describe(const Spec &s) {
     return "?";
 }
 
+static void put32(std::vector<uint8_t> &b, size_t at, uint32_t v) { if (at + 4 <= b.size()) memcpy(b.data() + at, &v, 4); }
+
+static int mode_hostile() {
+    static const std::vector<uint32_t> BOUND = {0, 1, 4, 5, 0x7fffffff, 0x80000000u, 0xfffffff0u, 0xfffffffbu, 0xfffffffcu, 0xffffffffu, 0x10000, 0x00ffffff};
+    bool ok = rc::check("cop decoder on hostile bytes", [&]() {
+        VmHeap h1, h2;
+        vm_heap_init(&h1);
+        vm_heap_init(&h2);
+        int kind = *rc::gen::resize(100, rc::gen::inRange(0, 7));
+        std::vector<uint8_t> b;
+        std::string cls;
+        if (kind <= 3) {
+            Spec s = *genSpec(3);
+            NanoValue v = build(s, &h1);
+            std::vector<uint8_t> big(400000);
+            uint32_t n = cop_serialize_value(&v, big.data(), (uint32_t)big.size());
+            b.assign(big.begin(), big.begin() + n);
+            if (kind == 0) {           // overwrite a 32-bit field at a drawn offset with a boundary value
+                cls = "field_boundary";
+                if (b.size() >= 5) put32(b, *rc::gen::inRange<size_t>(1, b.size() - 3), *rc::gen::elementOf(BOUND));
+            } else if (kind == 1) {    // truncate
+                cls = "truncated";
+                b.resize(*rc::gen::inRange<size_t>(0, b.size() + 1));
+            } else if (kind == 2) {    // flip a tag-like byte
+                cls = "byte_replaced";
+                if (!b.empty()) b[*rc::gen::inRange<size_t>(0, b.size())] = *rc::gen::elementOf(std::vector<uint8_t>{0, 1, 2, 3, 4, 5, 6, 7, 8, 9, 0x63, 0xff});
+            } else {                   // splice two values
+                cls = "spliced";
+                Spec s2 = *genSpec(2);
+                NanoValue v2 = build(s2, &h1);
+                uint32_t n2 = cop_serialize_value(&v2, big.data(), (uint32_t)big.size());
+                size_t cut = b.empty() ? 0 : *rc::gen::inRange<size_t>(0, b.size());
+                b.resize(cut);
+                b.insert(b.end(), big.begin(), big.begin() + n2);
+            }
+        } else if (kind == 4) {        // string / array headers with boundary lengths and little data
+            cls = "header_only";
+            uint8_t tag = *rc::gen::elementOf(std::vector<uint8_t>{TAG_STRING, TAG_ARRAY});
+            b.push_back(tag);
+            if (tag == TAG_ARRAY) b.push_back(*rc::gen::elementOf(std::vector<uint8_t>{TAG_INT, TAG_STRING, TAG_ARRAY, 0x63}));
+            uint32_t v = *rc::gen::elementOf(BOUND);
+            b.resize(b.size() + 4);
+            memcpy(b.data() + b.size() - 4, &v, 4);
+            int extra = *rc::gen::inRange(0, 12);
+            for (int i = 0; i < extra; i++) b.push_back((uint8_t)(i * 29 + 5));
+        } else if (kind == 5) {        // deep nesting
+            cls = "deep_nesting";
+            int depth = *rc::gen::elementOf(std::vector<int>{10, 63, 64, 65, 66, 1000, 60000});
+            for (int i = 0; i < depth; i++) { b.push_back(TAG_ARRAY); b.push_back(TAG_ARRAY); uint32_t one = 1; b.resize(b.size() + 4); memcpy(b.data() + b.size() - 4, &one, 4); }
+            b.push_back(TAG_INT);
+            for (int i = 0; i < 8; i++) b.push_back(0);
+        } else {                       // random bytes
+            cls = "random_bytes";
+            b = *rc::gen::container<std::vector<uint8_t>>(rc::gen::arbitrary<uint8_t>());
+        }
+        // exact-size heap copy so that any read past the end is an ASan report
+        uint8_t *exact = (uint8_t *)malloc(b.size() ? b.size() : 1);
+        if (!b.empty()) memcpy(exact, b.data(), b.size());
+        NanoValue out;
+        memset(&out, 0, sizeof out);
+        uint32_t c = cop_deserialize_value(exact, (uint32_t)b.size(), &out, &h2);
+        free(exact);
+        g_eval++;
+        g_cls[cls + (c ? "_decoded" : "_refused")]++;
+        if (c == 0) g_nontrivial.insert(fnv(b.data(), b.size()));
+        if (g_samples.size() < 4 && g_eval % 97 == 5) g_samples.push_back(cls + " " + std::to_string(b.size()) + " bytes -> " + std::to_string(c));
+        if (c > b.size()) g_last = "decoder reports " + std::to_string(c) + " bytes consumed from a buffer of " + std::to_string(b.size()) + " (" + cls + ")";
+        RC_ASSERT(c <= b.size());
+    });
+    if (!ok) printf("FAIL %s\n", g_last.c_str());
+    printf("SUMMARY {\"evaluations\": %" PRIu64 ", \"distinct_nontrivial\": %zu, \"classes\": {", g_eval, g_nontrivial.size());
+    bool first = true;
+    for (auto &kv : g_cls) { printf("%s%s: %" PRIu64, first ? "" : ", ", jstr(kv.first).c_str(), kv.second); first = false; }
+    printf("}, \"samples\": [");
+    for (size_t i = 0; i < g_samples.size(); i++) printf("%s%s", i ? ", " : "", jstr(g_samples[i]).c_str());
+    printf("]}\n");
+    return ok ? 0 : 1;
+}
+
 int main(int argc, char **argv) {
+    if (argc >= 2 && std::string(argv[1]) == "hostile") return mode_hostile();
     if (argc < 2 || std::string(argv[1]) != "rt") return 2;
     bool ok = rc::check("cop value round trip", [&]() {
         Spec s = *genSpec(3);
